@@ -2,6 +2,46 @@ import PydjinniModel.Props.C03Decl
 import PydjinniModel.Props.C03Lex
 /-!
 # C03 — the text level: every layout of a well-formed token sequence lexes back to that sequence
+
+`C03Decl.text_roundtrip` assumes the output of the lexer as a hypothesis. This file removes it: starting from
+token *kinds* (or from a file shape) it writes source **text** — with an arbitrary layout — and proves that the
+model lexer `lex` (and then `parseText`) reads back exactly what was written.
+
+1. well-formed tokens and safe continuations
+   * `Tk.WF` (decidable; `Tk.wf`)     the token kind could have been produced by the lexer: `kw s` with `s` one of
+                                      the 29 literals; `id s` a letter followed by letters/digits/`_`, not a
+                                      keyword; `nsid s` an optional leading dot and identifiers joined by single
+                                      dots (at least one dot); `comment s` = `#…` without `\r`/`\n`;
+                                      `filepath s` = `"…"` without inner `"`; `target s` = `+`/`-` and lower-case
+                                      letters
+   * `Tk.stops t rest` (decidable)    `rest` cannot extend `t`: anything after punctuation/`@import`/`->`/paths;
+                                      `wordStop` after words (no letter/digit/`_`, no `.x`); no letter after `.`;
+                                      no lower-case letter after a target flag; end of input or `\n`/`\r` after a
+                                      comment
+   * `lexOne_wf`                      `t.WF → t.stops rest → lexOne (t.text ++ rest) = .tok t |t.text|`
+   * `stops_nil`, `stops_ws`, `stops_append`
+2. rendering with an arbitrary layout
+   * `renderTks sep tks`              `sep 0`, then `tks[i]` followed by the run `sep (i+1)`, for all `i`
+   * `needsSpace a b` (decidable)     must `a` and `b` be separated?
+   * `Layout sep tks` (decidable; `layout_iff`)   every run is white space (`isWs`: blank, tab, `\r`, `\n`, in any
+                                      number and order); an *empty* run only between tokens with
+                                      `needsSpace = false` (or at the end); after a comment a non-empty run starts
+                                      with `\n` or `\r`.  `Spaced` (strict: non-empty run after every token) implies it;
+                                      `tight_layout`, `line_layout`: two layouts admissible for *every* sequence
+   * `scan_renderFrom`                the lexer finds exactly the written tokens and the written runs
+   * **`lex_render`**                 `(lex (renderTks sep tks)).map (·.map (·.tk)) = some tks` for all well-formed
+                                      `tks` and all admissible `sep`;  `lex_render_exact`: with all positions
+   * `lex_layout_independent`, `renderTks_injective`
+3. files
+   * `FileShape.WF` (decidable), `FileShape.good` (syntactic, on the shape) with `FileShape.good_wf`
+   * **`source_roundtrip`**           `parseText (renderTks sep (printFile f))` returns a file of shape `f.erase`
+   * **`layout_independence`**, **`source_injective`**, `source_exists`
+4. positions
+   * `lex_render_position`            the `k`-th token is `tks[k]`, starts at `advance 1 0` of the rendered prefix
+                                      `renderTks sep (tks.take k)` and ends at `advance` of prefix ++ its text
+   * `lex_render_position_prefix`     equal rendered prefixes ⇒ equal start position of the `k`-th token
+5. non-vacuity: `exText` rendered with four layouts (kernel-evaluated; `#guard`s are tests), and examples showing
+   that `Layout`, `needsSpace` and `Tk.WF` cannot be dropped.
 -/
 set_option linter.unusedSimpArgs false
 
@@ -1572,5 +1612,220 @@ theorem source_ne_of_shape_ne (f g : FileShape) (hf : f.WF) (hg : g.WF) (sep sep
     (hl : Layout sep (printFile f)) (hl' : Layout sep' (printFile g)) (h : f.erase ≠ g.erase) :
     renderTks sep (printFile f) ≠ renderTks sep' (printFile g) :=
   fun e => h (source_injective f g hf hg sep sep' hl hl' e)
+
+/-! ### two canonical layouts, admissible for every token sequence -/
+
+/-- the *tight* layout: nothing between two tokens unless `needsSpace` demands it (then one blank; one line end
+    after a comment); no leading or trailing white space -/
+def tightSep (tks : List Tk) : Nat → List Char
+  | 0 => []
+  | i+1 =>
+    match tks[i]?, tks[i+1]? with
+    | some a, some b =>
+      if needsSpace a b then
+        (match a with
+         | .comment _ => ['\n']
+         | _ => [' '])
+      else []
+    | _, _ => []
+
+/-- the tight layout is admissible for every token sequence -/
+theorem tight_layout (tks : List Tk) : Layout (tightSep tks) tks := by
+  rw [layout_iff]
+  refine ⟨by simp [tightSep], ?_⟩
+  intro i hi
+  have e : tks[i]? = some tks[i] := List.getElem?_eq_getElem hi
+  cases hn : tks[i+1]? with
+  | none => simp [tightSep, hn, sepOK]
+  | some b =>
+    simp only [tightSep, e, hn]
+    cases hs : needsSpace tks[i] b with
+    | false => simp [sepOK, hs]
+    | true =>
+      simp only [if_true]
+      cases tks[i] <;> simp [sepOK, isWs, isNl]
+
+/-- a *line-oriented* layout: a line end after comments, `;`, `{` and `}`, one blank elsewhere -/
+def lineSep (tks : List Tk) : Nat → List Char
+  | 0 => []
+  | i+1 =>
+    match tks[i]? with
+    | some (.comment _) => ['\n']
+    | some (.kw s) => if s == ";" || s == "{" || s == "}" then ['\n'] else [' ']
+    | _ => [' ']
+
+theorem line_layout (tks : List Tk) : Layout (lineSep tks) tks := by
+  apply Spaced.layout
+  refine ⟨by simp [lineSep], ?_⟩
+  intro i hi
+  have e : tks[i]? = some tks[i] := List.getElem?_eq_getElem hi
+  simp only [lineSep, e]
+  cases h : tks[i] with
+  | kw s =>
+    simp only []
+    split
+    · refine ⟨by simp, by simp [isWs], ?_⟩
+      intro c hc; cases hc
+    · refine ⟨by simp, by simp [isWs], ?_⟩
+      intro c hc; cases hc
+  | comment s =>
+    refine ⟨by simp, by simp [isWs], ?_⟩
+    intro c _ x hx
+    simp at hx; subst hx; decide
+  | _ =>
+    refine ⟨by simp, by simp [isWs], ?_⟩
+    intro c hc; cases hc
+
+/-- every well-formed file shape has a source text — even several: the line-oriented and the tight one -/
+theorem source_exists (f : FileShape) (hf : f.WF) :
+    ∃ file file', parseText (renderTks (lineSep (printFile f)) (printFile f)) = some file ∧
+      parseText (renderTks (tightSep (printFile f)) (printFile f)) = some file' ∧
+      file.shape? = file'.shape? ∧ file.shape? = some f.erase :=
+  layout_independence f hf _ _ (line_layout _) (tight_layout _)
+
+/-! ## 5. non-vacuity: worked examples (kernel-evaluated unless marked as tests) -/
+
+/-- import line, dotted namespace with a comment, enum with a commented item, record with target flag, an
+    optional generic field and `deriving`, interface with a static async method with two parameters (one of a
+    dotted type), `throws` and a return type, and a property -/
+def exText : FileShape :=
+  { loads := [⟨true, "\"base.pydjinni\""⟩],
+    contents := [
+      .ns "app.core" true ["# the core namespace"] [
+        .decl (.enum "color" [] [⟨"red", ["# warm"]⟩, ⟨"green", []⟩]),
+        .decl (.record "point" [] ["+cpp"]
+          [⟨"x", ty "i32", []⟩, ⟨"tags", .mk "list" false [ty "string"] true, []⟩] (some ["eq", "ord"])),
+        .decl (.interface "service" ["# entry point"] true ["+cpp", "-java"] [
+          .m ⟨"run", true, false, true,
+              ⟨[⟨"p", ty "point"⟩, ⟨"n", .mk "base.count" true [] false⟩], some [ty "failure"], some (ty "bool")⟩,
+              ["# runs"]⟩,
+          .p ⟨"state", ty "color", []⟩])]] }
+
+/-- every token on a line of its own -/
+def layLines : Nat → List Char := fun i => if i = 0 then [] else ['\n']
+/-- a wild mixture of `\r\n`, tabs, blanks and empty lines (each run starting with a line end) -/
+def layWild : Nat → List Char := fun i =>
+  if i % 4 = 0 then ['\r', '\n', '\t'] else if i % 4 = 1 then ['\n', ' ', ' ']
+  else if i % 4 = 2 then ['\n'] else ['\r', '\r', '\n', ' ', '\n']
+
+example : exText.good = true := by decide +kernel
+theorem exText_wf : exText.WF := FileShape.good_wf (by decide +kernel)
+theorem exText_layLines : Layout layLines (printFile exText) := by decide +kernel
+theorem exText_layWild : Layout layWild (printFile exText) := by decide +kernel
+
+/-- the line-oriented rendering of `exText`, as text -/
+example : renderTks (lineSep (printFile exText)) (printFile exText) =
+"@import \"base.pydjinni\" # the core namespace
+namespace app.core {
+color = enum {
+# warm
+red ;
+green ;
+}
+point = record +cpp {
+x : i32 ;
+tags : list < string > ? ;
+}
+deriving ( eq , ord ) # entry point
+service = main interface +cpp -java {
+# runs
+static async run ( p : point , n : base.count ) throws failure -> bool ;
+property state : color ;
+}
+}
+" := by decide +kernel
+
+/-- the tight rendering: blanks only where two words (or a target flag and a word) meet -/
+example : renderTks (tightSep (printFile exText)) (printFile exText) =
+"@import\"base.pydjinni\"# the core namespace
+namespace app.core{color=enum{# warm
+red;green;}point=record+cpp{x:i32;tags:list<string>?;}deriving(eq,ord)# entry point
+service=main interface+cpp-java{# runs
+static async run(p:point,n:base.count)throws failure->bool;property state:color;}}" := by decide +kernel
+
+/-- `layout_independence` instantiated: the "one token per line" text and the wild `\r\n`/tab/blank-line text
+    both parse, to files of the same shape `exText.erase` -/
+example : ∃ file file', parseText (renderTks layLines (printFile exText)) = some file ∧
+    parseText (renderTks layWild (printFile exText)) = some file' ∧
+    file.shape? = file'.shape? ∧ file.shape? = some exText.erase :=
+  layout_independence exText exText_wf layLines layWild exText_layLines exText_layWild
+
+/-- … and the two texts are really different -/
+example : renderTks layLines (printFile exText) ≠ renderTks layWild (printFile exText) := by decide +kernel
+
+/-- independent check by evaluation (not using the theorems): lexing + parsing the four texts gives the shape -/
+example : (parseText (renderTks layWild (printFile exText))).bind File.shape? = some exText.erase := by
+  decide +kernel
+example : (parseText (renderTks (tightSep (printFile exText)) (printFile exText))).bind File.shape? =
+    some exText.erase := by decide +kernel
+-- tests (compiler-evaluated)
+#guard (parseText (renderTks layLines (printFile exText))).bind File.shape? == some exText.erase
+#guard (parseText (renderTks (lineSep (printFile exText)) (printFile exText))).bind File.shape? == some exText.erase
+#guard (lex (renderTks layWild (printFile exText))).map (·.map (·.tk)) == some (printFile exText)
+
+/-- `lex_render_position` on a small sequence: positions computed by the lexer = `advance` over the prefix -/
+example : (lex (renderTks layWild [.id "a", .kw "=", .kw "enum", .kw "{", .kw "}"])).map
+      (·.map (fun t => (t.line, t.col))) =
+    some [(2, 1), (3, 2), (4, 0), (6, 0), (7, 1)] := by decide +kernel
+example : advance 1 0 (renderTks layWild ([Tk.id "a", .kw "=", .kw "enum", .kw "{", .kw "}"].take 3)).toList = (6, 0) := by
+  decide +kernel
+
+/-! the hypotheses are needed -/
+
+/-- `Layout` is needed (1): two words glued together are one word -/
+example : needsSpace (.id "a") (.id "b") = true ∧
+    (lex (renderTks (fun _ => []) [.id "a", .id "b"])).map (·.map (·.tk)) = some [.id "ab"] := by decide +kernel
+/-- (2): a word and a dotted name, a target flag and a word, `.` and a word glue as well -/
+example : needsSpace (.id "a") (.nsid ".b") = true ∧ needsSpace (.target "+c") (.id "pp") = true ∧
+    needsSpace (.kw ".") (.id "x") = true ∧
+    (lex (renderTks (fun _ => []) [.id "a", .nsid ".b"])).map (·.map (·.tk)) = some [.nsid "a.b"] ∧
+    (lex (renderTks (fun _ => []) [.target "+c", .id "pp"])).map (·.map (·.tk)) = some [.target "+cpp"] ∧
+    (lex (renderTks (fun _ => []) [.kw ".", .id "x"])).map (·.map (·.tk)) = some [.nsid ".x"] := by
+  decide +kernel
+/-- (3): after a comment, a run of blanks is not enough — the comment swallows the rest of the line -/
+example : ¬ Layout (fun _ => [' ']) [.comment "#c", .id "a"] ∧
+    (lex (renderTks (fun _ => [' ']) [.comment "#c", .id "a"])).map (·.map (·.tk)) =
+      some [.comment "#c a "] := by decide +kernel
+/-- gluing is fine where `needsSpace` says so: `a:list<b>?;` -/
+example : Layout (fun _ => []) [.id "a", .kw ":", .id "list", .kw "<", .id "b", .kw ">", .kw "?", .kw ";"] ∧
+    renderTks (fun _ => []) [.id "a", .kw ":", .id "list", .kw "<", .id "b", .kw ">", .kw "?", .kw ";"] =
+      "a:list<b>?;" := by decide +kernel
+/-- `a.` followed by a non-letter is not a dotted name: `.` may be glued to a word if no letter follows -/
+example : Layout (fun _ => []) [.id "a", .kw ".", .kw ";"] ∧ ¬ Layout (fun _ => []) [.id "a", .kw ".", .id "b"] := by
+  decide +kernel
+/-- `Tk.WF` is needed: a keyword written as identifier, an identifier starting with `_`, a comment with a line
+    break, a "dotted" name without dot do not come back -/
+example : ¬ (Tk.id "enum").WF ∧ ¬ (Tk.id "_a").WF ∧ ¬ (Tk.id "1a").WF ∧ ¬ (Tk.comment "#a\nb").WF ∧
+    ¬ (Tk.nsid "a").WF ∧ ¬ (Tk.nsid "a..b").WF ∧ ¬ (Tk.nsid "a.").WF ∧ ¬ (Tk.filepath "\"a\"b\"").WF ∧
+    ¬ (Tk.target "+").WF ∧ ¬ (Tk.target "+Cpp").WF ∧ ¬ (Tk.kw "class").WF := by decide +kernel
+example : (Tk.id "a_1").WF ∧ (Tk.nsid "a.b").WF ∧ (Tk.nsid ".a.enum").WF ∧ (Tk.comment "#").WF ∧
+    (Tk.filepath "\"\"").WF ∧ (Tk.filepath "\"a\nb\"").WF ∧ (Tk.target "-objc").WF ∧ (Tk.kw "->").WF := by
+  decide +kernel
+example : (lex (renderTks layLines [.id "enum"])).map (·.map (·.tk)) = some [.kw "enum"] ∧
+    (lex (renderTks layLines [.nsid "a"])).map (·.map (·.tk)) = some [.id "a"] ∧
+    lex (renderTks layLines [.id "_a"]) = none ∧
+    (lex (renderTks layLines [.comment "#a\nb"])).map (·.map (·.tk)) = some [.comment "#a", .id "b"] := by
+  decide +kernel
+/-- `FileShape.good` rejects a keyword used as a name and a comment without `#` -/
+example : FileShape.good { loads := [], contents := [.decl (.enum "record" [] [])] } = false ∧
+    FileShape.good { loads := [], contents := [.decl (.enum "e" ["doc"] [])] } = false := by decide +kernel
+
+#print axioms lexOne_wf
+#print axioms scan_renderFrom
+#print axioms lex_render_exact
+#print axioms lex_render
+#print axioms lex_render_spaced
+#print axioms lex_layout_independent
+#print axioms renderTks_injective
+#print axioms lex_render_position
+#print axioms lex_render_position_prefix
+#print axioms FileShape.good_wf
+#print axioms source_roundtrip
+#print axioms source_roundtrip_good
+#print axioms layout_independence
+#print axioms source_injective
+#print axioms tight_layout
+#print axioms line_layout
+#print axioms source_exists
 
 end Pydjinni.Front
